@@ -650,7 +650,39 @@ func (g *guardEngine) discharge(s guardSite) string {
 		if s.needLen == 1 && g.ensuredNonEmpty(s, x) {
 			return "ensure-non-empty idiom: a dominating `if len(x.F) == 0 { x.F = <non-empty> }` precedes the site"
 		}
-		return ""
+		return g.dischargeBySymLen(s)
+	}
+	// the length of x is a known value n (x = make(T, n), possibly built by a helper, or nil
+	// when n == 0): facts about n and loops bounded by n discharge the site
+	if why := g.dischargeBySymLen(s); why != "" {
+		return why
+	}
+	// a bound that is a capped length of the same value: min(len(x), k), or
+	// `n := len(x); if n > k { n = k }`
+	if s.idxIsBound && g.leLen(s.idx, x, 0) {
+		return "slice bound is len(x) capped from above"
+	}
+	// index i (or bound i+1) for the index i of a forward loop over x[:h] with h <= len(x)
+	{
+		iv := s.idx
+		if add, ok := iv.(*ssa.BinOp); ok && s.idxIsBound && add.Op == token.ADD {
+			if k, ok := constInt(add.Y); ok && k == 1 {
+				iv = add.X
+			}
+		}
+		if bound, ok := forwardIndex(iv); ok {
+			if y := lenSlice(bound); y != nil {
+				if sl, ok := y.(*ssa.Slice); ok && sl.Low == nil && (sl.X == x || g.same(sl.X, x)) && sl.High != nil && g.leLen(sl.High, x, 0) {
+					return "index of a forward loop over a capped prefix of the same value"
+				}
+				if iv != s.idx && (y == x || g.same(y, x)) {
+					return "slice bound i+1 for the index i of a forward loop over the same value"
+				}
+				if y != x && g.prefixOf(y, x, 0) {
+					return "index of a forward loop over a prefix of the same value"
+				}
+			}
+		}
 	}
 	// variable index
 	if rangeIndex(s.idx) {
@@ -998,4 +1030,357 @@ func stableIdx(v ssa.Value) string {
 		return "φ"
 	}
 	return stableDesc(v)
+}
+
+// leLen: v <= len(x) on structural grounds: v is len(x); min(…, len(x), …); or a phi whose
+// every incoming value is len(x) or a constant k that arrives only from the taken branch of
+// `len(x) > k` / `len(x) >= k`.
+func (g *guardEngine) leLen(v, x ssa.Value, depth int) bool {
+	if depth > 4 {
+		return false
+	}
+	if lx := lenArg(v); lx != nil {
+		return lx == x || g.same(lx, x)
+	}
+	switch t := v.(type) {
+	case *ssa.Call:
+		if bi, ok := t.Call.Value.(*ssa.Builtin); ok && bi.Name() == "min" {
+			for _, a := range t.Call.Args {
+				if g.leLen(a, x, depth+1) {
+					return true
+				}
+			}
+		}
+	case *ssa.Phi:
+		for i, e := range t.Edges {
+			if g.leLen(e, x, depth+1) {
+				continue
+			}
+			k, ok := constInt(e)
+			if !ok || k < 0 {
+				return false
+			}
+			// the edge's predecessor is entered only when len(x) >= k holds
+			pred := t.Block().Preds[i]
+			proven := false
+			for _, f := range append(g.factsAt(pred), g.earlyExitFacts(pred)...) {
+				if f.x != nil && (f.x == x || g.same(f.x, x)) && f.min >= k {
+					proven = true
+				}
+			}
+			// the edge comes straight from the test block: pred ends in `if len(x) > k` and
+			// the phi's block is its taken successor
+			if !proven {
+				if iff, ok := pred.Instrs[len(pred.Instrs)-1].(*ssa.If); ok {
+					pol := pred.Succs[0] == t.Block()
+					if pred.Succs[0] != pred.Succs[1] {
+						for _, f := range g.factsFromCond(iff.Cond, pol) {
+							if f.x != nil && (f.x == x || g.same(f.x, x)) && f.min >= k {
+								proven = true
+							}
+						}
+					}
+				}
+			}
+			if !proven {
+				return false
+			}
+		}
+		return len(t.Edges) > 0
+	}
+	return false
+}
+
+// stripIntConvert removes every integer-to-integer conversion.  Only used to compare a loop
+// bound or a guard with the length a slice was made with: make(T, n) has already succeeded
+// when the site is reached, so 0 <= n <= MaxInt and every conversion of n preserves it.
+func stripIntConvert(v ssa.Value) ssa.Value {
+	for {
+		cv, ok := v.(*ssa.Convert)
+		if !ok {
+			return v
+		}
+		if bt, ok := cv.X.Type().Underlying().(*types.Basic); !ok || bt.Info()&types.IsInteger == 0 {
+			return v
+		}
+		v = cv.X
+	}
+}
+
+// symLen: a value n with len(x) == n wherever x is defined: x = make(T, n); x returned by a
+// module helper whose every return hands out a slice made with one of its parameters; a phi
+// of such values with, possibly, nil on an edge taken only when n == 0.
+func (g *guardEngine) symLen(x ssa.Value, depth int) ssa.Value {
+	if depth > 4 {
+		return nil
+	}
+	switch v := x.(type) {
+	case *ssa.MakeSlice:
+		return stripIntConvert(v.Len)
+	case *ssa.Extract:
+		if call, ok := v.Tuple.(*ssa.Call); ok {
+			return g.symLenOfResult(call, v.Index, depth)
+		}
+	case *ssa.Call:
+		return g.symLenOfResult(v, 0, depth)
+	case *ssa.Phi:
+		var n ssa.Value
+		for _, e := range v.Edges {
+			if k, ok := e.(*ssa.Const); ok && k.IsNil() {
+				continue
+			}
+			m := g.symLen(e, depth+1)
+			if m == nil || (n != nil && !g.sameInt(n, m)) {
+				return nil
+			}
+			n = m
+		}
+		if n == nil {
+			return nil
+		}
+		for i, e := range v.Edges {
+			if k, ok := e.(*ssa.Const); ok && k.IsNil() {
+				if !g.zeroOnEdge(n, v.Block().Preds[i], v.Block()) {
+					return nil
+				}
+			}
+		}
+		return n
+	}
+	return nil
+}
+
+func (g *guardEngine) symLenOfResult(call *ssa.Call, idx int, depth int) ssa.Value {
+	callee := call.Call.StaticCallee()
+	if callee == nil || !fnInModule(callee) || len(callee.Blocks) == 0 {
+		return nil
+	}
+	param := -1
+	for _, b := range callee.Blocks {
+		ret, ok := b.Instrs[len(b.Instrs)-1].(*ssa.Return)
+		if !ok {
+			continue
+		}
+		if idx >= len(ret.Results) {
+			return nil
+		}
+		n := g.symLen(ret.Results[idx], depth+1)
+		par, ok := n.(*ssa.Parameter)
+		if !ok {
+			return nil
+		}
+		k := -1
+		for i, q := range callee.Params {
+			if q == par {
+				k = i
+			}
+		}
+		if k < 0 || (param >= 0 && param != k) {
+			return nil
+		}
+		param = k
+	}
+	if param < 0 || param >= len(call.Call.Args) {
+		return nil
+	}
+	return stripIntConvert(call.Call.Args[param])
+}
+
+// sameInt: the two integer values are the same (the same SSA value, equal pure expressions,
+// or len() of the same slice), conversions aside.
+func (g *guardEngine) sameInt(a, b ssa.Value) bool {
+	a, b = stripIntConvert(a), stripIntConvert(b)
+	if a == b || g.same(a, b) {
+		return true
+	}
+	if la, lb := lenArg(a), lenArg(b); la != nil && lb != nil {
+		return la == lb || g.same(la, lb)
+	}
+	return false
+}
+
+// zeroOnEdge: the edge pred→blk is taken only when n == 0 (n a length or an unsigned count):
+// pred ends in a test `n > 0`, `n != 0`, `n == 0`, `n < 1` … whose outcome on this edge
+// leaves only zero.
+func (g *guardEngine) zeroOnEdge(n ssa.Value, pred, blk *ssa.BasicBlock) bool {
+	for d := pred; d != nil; d = d.Idom() {
+		if len(d.Instrs) == 0 {
+			continue
+		}
+		iff, ok := d.Instrs[len(d.Instrs)-1].(*ssa.If)
+		if !ok || d.Succs[0] == d.Succs[1] {
+			if d == pred {
+				continue
+			}
+			break
+		}
+		var pol, known bool
+		switch {
+		case d == pred:
+			pol, known = d.Succs[0] == blk, true
+		default:
+			t := blockReachesAvoid(d.Succs[0], pred, d)
+			f := blockReachesAvoid(d.Succs[1], pred, d)
+			if t != f {
+				pol, known = t, true
+			}
+		}
+		if !known {
+			continue
+		}
+		cmp, ok := iff.Cond.(*ssa.BinOp)
+		if !ok {
+			continue
+		}
+		l, r, op := cmp.X, cmp.Y, cmp.Op
+		if _, isConst := l.(*ssa.Const); isConst {
+			l, r = r, l
+			switch op {
+			case token.LSS:
+				op = token.GTR
+			case token.GTR:
+				op = token.LSS
+			case token.LEQ:
+				op = token.GEQ
+			case token.GEQ:
+				op = token.LEQ
+			}
+		}
+		k, isK := constInt(r)
+		if !isK || !g.sameInt(l, n) {
+			continue
+		}
+		// nonNeg: lengths and unsigned counts
+		zero := false
+		switch {
+		case op == token.GTR && k == 0 && !pol, op == token.NEQ && k == 0 && !pol, op == token.GEQ && k == 1 && !pol:
+			zero = true
+		case op == token.EQL && k == 0 && pol, op == token.LSS && k == 1 && pol, op == token.LEQ && k == 0 && pol:
+			zero = true
+		}
+		if zero {
+			return true
+		}
+	}
+	return false
+}
+
+// intMin: a lower bound on the integer value n at block b from dominating comparisons with
+// constants (n == k, n >= k, n > k and their negated forms).
+func (g *guardEngine) intMin(n ssa.Value, b *ssa.BasicBlock) int64 {
+	var min int64
+	consider := func(cond ssa.Value, pol bool) {
+		cmp, ok := cond.(*ssa.BinOp)
+		if !ok {
+			return
+		}
+		l, r, op := cmp.X, cmp.Y, cmp.Op
+		if _, isConst := l.(*ssa.Const); isConst {
+			l, r = r, l
+			switch op {
+			case token.LSS:
+				op = token.GTR
+			case token.GTR:
+				op = token.LSS
+			case token.LEQ:
+				op = token.GEQ
+			case token.GEQ:
+				op = token.LEQ
+			}
+		}
+		k, isK := constInt(r)
+		if !isK || !g.sameInt(l, n) {
+			return
+		}
+		if !pol {
+			switch op {
+			case token.LSS:
+				op = token.GEQ
+			case token.LEQ:
+				op = token.GTR
+			case token.NEQ:
+				op = token.EQL
+			default:
+				return
+			}
+		}
+		m := int64(-1)
+		switch op {
+		case token.EQL, token.GEQ:
+			m = k
+		case token.GTR:
+			m = k + 1
+		}
+		if m > min {
+			min = m
+		}
+	}
+	for d := b; d != nil; d = d.Idom() {
+		id := d.Idom()
+		if id == nil || len(id.Instrs) == 0 {
+			continue
+		}
+		iff, ok := id.Instrs[len(id.Instrs)-1].(*ssa.If)
+		if !ok || id.Succs[0] == id.Succs[1] {
+			continue
+		}
+		t := id.Succs[0] == d && len(d.Preds) == 1 || id.Succs[0] != b && blockReachesAvoid(id.Succs[0], b, id) && !blockReachesAvoid(id.Succs[1], b, id)
+		f := id.Succs[1] == d && len(d.Preds) == 1 || id.Succs[1] != b && blockReachesAvoid(id.Succs[1], b, id) && !blockReachesAvoid(id.Succs[0], b, id)
+		if id.Succs[0] == d && len(d.Preds) == 1 {
+			consider(iff.Cond, true)
+		} else if id.Succs[1] == d && len(d.Preds) == 1 {
+			consider(iff.Cond, false)
+		} else if t && !f {
+			consider(iff.Cond, true)
+		} else if f && !t {
+			consider(iff.Cond, false)
+		}
+	}
+	return min
+}
+
+func (g *guardEngine) dischargeBySymLen(s guardSite) string {
+	n := g.symLen(s.x, 0)
+	if n == nil {
+		return ""
+	}
+	if s.idx == nil {
+		if g.intMin(n, s.ins.Block()) >= s.needLen {
+			return fmt.Sprintf("the slice was made with a length that a dominating comparison shows to be >= %d", s.needLen)
+		}
+		return ""
+	}
+	iv := s.idx
+	if add, ok := iv.(*ssa.BinOp); ok && s.idxIsBound && add.Op == token.ADD {
+		if k, ok := constInt(add.Y); ok && k == 1 {
+			iv = add.X
+		}
+	}
+	if bound, ok := forwardIndex(iv); ok && g.sameInt(bound, n) {
+		return "index of a forward loop bounded by the length the slice was made with"
+	}
+	return ""
+}
+
+// prefixOf: y is x or x[:h] (so len(y) <= len(x)), possibly chosen by a phi
+// (`w := x; if len(w) > k { w = w[:k] }`).
+func (g *guardEngine) prefixOf(y, x ssa.Value, depth int) bool {
+	if depth > 4 {
+		return false
+	}
+	if y == x || g.same(y, x) {
+		return true
+	}
+	switch v := y.(type) {
+	case *ssa.Slice:
+		return v.Low == nil && g.prefixOf(v.X, x, depth+1)
+	case *ssa.Phi:
+		for _, e := range v.Edges {
+			if !g.prefixOf(e, x, depth+1) {
+				return false
+			}
+		}
+		return len(v.Edges) > 0
+	}
+	return false
 }
